@@ -193,6 +193,10 @@ func (f *RepeatingGroup) Read(tv []TagValue) ([]TagValue, error) {
 		return tv[1:], nil
 	}
 
+	if len(f.template) == 0 {
+		return tv, repeatingGroupFieldsOutOfOrder(f.tag, fmt.Sprintf("group %v: template is empty", f.tag))
+	}
+
 	tv = tv[1:cap(tv)]
 	tagOrdering := f.groupTagOrder()
 	group := new(Group)
